@@ -79,7 +79,12 @@ def typed_ok(term, x, v=None):
         if type(x) is not cls:
             return f'{x!r} is not an instance of {cls.__name__}'
         from pane.field import _MISSING
-        spec = {f['name']: f for f in term[1]['fields'] if not f.get('kw_marker')}
+        spec, sp = {}, term[1]
+        while sp is not None:
+            for f in sp['fields']:
+                if not f.get('kw_marker'):
+                    spec.setdefault(f['name'], f)
+            sp = sp.get('_parent_spec')
         for f in cls.__pane_info__.fields:
             if not f.init:
                 continue
